@@ -8,7 +8,12 @@ RUN_MODULE = "RunC18"
 RULE = ("one case = a history of 2-5 runs on one real recorder: operations of two or three classes (instance and class-level, "
         "the same class several times with different extractors: dict / raises / junk int / junk pairs / none) terminating by "
         "return, ordinary exception or interrupt at a random step incl. inside intercepted bodies and after outputs were "
-        "captured, with discards and replays in between; non-trivial = a run that is saved; distinct = distinct history")
+        "captured, with discards and replays in between; operation classes that derive from another class of the service "
+        "(base plain or with registered recording parameters, derived class registered or not, the decorated operation defined "
+        "in the derived class or inherited; a deterministic grid over level x inherited x termination x extractor); after each "
+        "history the lookup is asked through properties objects in every state reached after construction (skip_incomplete "
+        "switched on / off / toggled, .metadata reassigned, one object for all categories and looked up twice); "
+        "non-trivial = a run that is saved; distinct = distinct history")
 ASSUMPTIONS = ["duration and timestamp come from the OS clock: only sanity (0 <= duration < 1h; the timestamp is a naive UTC time "
                "within two minutes of the save, also when the process's local time zone is not UTC) is checked by the harness, "
                "they are excluded from the model comparison",
@@ -235,7 +240,10 @@ MANIFEST = dict(
          "operations with all termination modes and extractor kinds (same class repeatedly, replays and discards in between) "
          "on the real recorder, full metadata (minus the two clock values) compared with the model. Direct predicate: flags vs "
          "the harness-side twin's termination mode, user keys vs the extractor, clock sanity, and the default "
-         "find_matching_recording_ids returns exactly the complete saved recordings.",
+         "find_matching_recording_ids returns exactly the complete saved recordings - also when the lookup properties reached "
+         "their state after construction (skip_incomplete / metadata assigned later, one object reused): the state at lookup time "
+         "decides (skip_incomplete off: all saved recordings; an exception-flag filter: the complete runs that returned). The "
+         "class stated is the class the operation ran on, also for classes derived from a class with registered parameters.",
     note="Partial: 'duration consistent with wall time' is about the OS clock (sanity-checked by the harness, not modelled). "
          "Hypothesis: aliases / user keys not containing the reserved operation alias. Trusted: Coq kernel + vm_compute, "
          "hand-written model, harness twin.",
